@@ -20,7 +20,7 @@ namespace Sentinel.Throttle
 /-- what the float part of `DoCheck` decides before touching the shared state -/
 inductive Req where
   | zero                 -- batchCount = 0: pass, no state change
-  | over                 -- threshold ≤ 0 or batchCount > threshold: blocked, no state change
+  | excess                 -- threshold ≤ 0 or batchCount > threshold: blocked, no state change
   | norm (iv : Int)      -- intervalNs
 deriving DecidableEq, Repr
 
@@ -39,7 +39,7 @@ def Res.passAt (now : Int) : Res → Option Int
 /-- `DoCheck` executed without interference; `last` = `lastPassedTime`; returns the new `last`. -/
 def doCheck (maxQ last now : Int) : Req → Int × Res
   | .zero => (last, .pass)
-  | .over => (last, .block)
+  | .excess => (last, .block)
   | .norm iv =>
     if last + iv ≤ now then (now, .pass)                        -- CAS(last → now) succeeds
     else if last + iv - now > maxQ then (last, .block)          -- estimate over the limit
@@ -77,7 +77,7 @@ deriving DecidableEq, Repr
 /-- a worker advanced to its first yield point (or to completion when it meets none) -/
 def Th.init (now : Int) : Req → Th
   | .zero => ⟨now, 0, .done .pass⟩
-  | .over => ⟨now, 0, .done .block⟩
+  | .excess => ⟨now, 0, .done .block⟩
   | .norm iv => ⟨now, iv, .load⟩
 
 def Th.isDone (t : Th) : Bool := match t.pc with | .done _ => true | _ => false
@@ -122,6 +122,10 @@ structure Cfg where
   log : List (Int × Int) := []
 deriving Repr
 
+/-- the configuration after every worker has been advanced to its first yield point -/
+def Cfg.start (maxQ last : Int) (ws : List (Int × Req)) : Cfg :=
+  { maxQ := maxQ, last := last, ths := ws.map fun w => Th.init w.1 w.2 }
+
 def Cfg.sched (c : Cfg) (i : Nat) : Cfg :=
   match c.ths[i]? with
   | none => c                                   -- unknown thread: entry skipped
@@ -143,8 +147,7 @@ def Cfg.run (c : Cfg) : List Nat → Cfg
 /-- one drain round: every thread that is still alive gets one step, in thread-id order -/
 def Cfg.round (c : Cfg) : Cfg := c.run (List.range c.ths.length)
 
-/-- the schedule, then round-robin draining (a call has at most five hooks, so five rounds finish everybody:
-    `Sentinel.C10.drain_all_done`) -/
+/-- the schedule, then round-robin draining (a call has at most five hooks, so five rounds finish everybody) -/
 def Cfg.runSched (c : Cfg) (s : List Nat) : Cfg := (c.run s).round.round.round.round.round
 
 def Cfg.results (c : Cfg) : List (Option Res) :=
